@@ -38,6 +38,8 @@ def worker(case):
             cell, net, perm, keep = busr
             bus[(cell, net)] = (tuple(perm), tuple(keep))
         opts = dict(opts)
+        if opts.pop("long_ids", False):
+            ad = fdesigns.long_identifiers(ad)
         if opts.pop("dup_instances", False):
             ad, ad_read = fdesigns.dup_instances(ad)
         else:
